@@ -5,6 +5,7 @@ import (
 	"reflect"
 	"sort"
 	"sync"
+	"time"
 	"unsafe"
 
 	"github.com/couchbase/gocbcore/v10"
@@ -397,7 +398,21 @@ func (h *Handler) SetHold(name string, on bool) {
 	h.HoldAt[name] = on
 	h.mu.Unlock()
 }
-func (h *Handler) Resume() { h.resume <- struct{}{} }
+
+// Resume releases one held callback; false if nothing was held within a second.
+func (h *Handler) Resume() bool {
+	select {
+	case h.resume <- struct{}{}:
+		return true
+	case <-time.After(time.Second):
+		return false
+	}
+}
+func (h *Handler) Peek() []string {
+	h.mu.Lock()
+	defer h.mu.Unlock()
+	return append([]string{}, h.Log...)
+}
 func (h *Handler) Take() []string {
 	h.mu.Lock()
 	defer h.mu.Unlock()
